@@ -11,7 +11,7 @@ pub fn props() -> Vec<Prop> {
         id: "C08",
         run: c08,
         tools: None,
-        rule: "seeded random trees (<= 12 nodes quick, <= 25 thorough; files, directories, links to files / directories / ancestors / absent paths, link cycles) x the full cross-product of entries() options (min_depth 0-3, max_depth 0-3/unbounded, none/dirs/files filter or one of 2 custom predicates, follow, sort_by_name, dirs_first, files_first, contents_first; ~3 k option records per tree, thinned by a seeded stride in quick) x descriptor caps {0,1,2,50} (hook) and a 60-deep chain without the hook. A reference walker computes from the reference tree what the options denote; checked on the produced sequence: termination within 2*|expected|+8 items, multiset equality (path, alt, kind flags, following), no item a filter rejects, parent before contents (after with contents_first), exact sequence equality whenever an order is requested (sort_by_name / dirs_first / files_first), LinkLooping instead of endless descent, equality across descriptor caps. paths/dirs/files/all_* are checked for absolute, distinct, name-sorted, argument-free results that agree with exists/is_dir/is_file in both directions. Memfs for all, Stdfs (materialised with std::fs) for a sample of in-domain trees. distinct_nontrivial = distinct (backend, option record class, tree shape class, outcome class) tuples. Later additions: a third of the trees use sibling names that are string prefixes of each other; a directed family on the real backend of link cycles whose target path runs through another link, judged on termination while polling past errors (the defect this showed - loop detection on path text - is fixed in /repo); a panicking traversal is a violation.",
+        rule: "seeded random trees (<= 12 nodes quick, <= 25 thorough; files, directories, links to files / directories / ancestors / absent paths, link cycles) x the full cross-product of entries() options (min_depth 0-3, max_depth 0-3/unbounded, none/dirs/files filter or one of 2 custom predicates, follow, sort_by_name, dirs_first, files_first, contents_first; ~3 k option records per tree, thinned by a seeded stride in quick) x descriptor caps {0,1,2,50} (hook) and a 60-deep chain without the hook. A reference walker computes from the reference tree what the options denote; checked on the produced sequence: termination within 2*|expected|+8 items, multiset equality (path, alt, kind flags, following), no item a filter rejects, parent before contents (after with contents_first), exact sequence equality whenever an order is requested (sort_by_name / dirs_first / files_first), LinkLooping instead of endless descent, equality across descriptor caps. paths/dirs/files/all_* are checked for absolute, distinct, name-sorted, argument-free results that agree with exists/is_dir/is_file in both directions. Memfs for all, Stdfs (materialised with std::fs) for a sample of in-domain trees. distinct_nontrivial = distinct (backend, option record class, tree shape class, outcome class) tuples. Later additions: a third of the trees use sibling names that are string prefixes of each other; a directed family on the real backend of link cycles whose target path runs through another link, judged on termination while polling past errors (the defect this showed - loop detection on path text - is fixed in /repo); a panicking traversal is a violation; one traversal over 66 000 sibling directories (more than a 16-bit counter holds), sorted and unsorted.",
         assumptions: &[
             "link-to-link chains are generated only with follow == false (the statement does not define them under follow)",
             "sibling order is only judged when an order is requested; ties in file name between a followed link and a sibling fall back to multiset comparison",
@@ -706,6 +706,58 @@ fn c08(ctx: &Ctx, rep: &mut Report) {
     // past every error like a consumer that skips failed items
     if ctx.shard == 0 {
         through_link_cycles(&sroot, rep);
+    }
+    // one traversal over more directories than a 16-bit counter can count (66 000 siblings, each opened once, sorted
+    // and unsorted): every one of them comes out exactly once and nothing panics in the checked-arithmetic profile
+    if ctx.shard == 1 % ctx.shards {
+        let n = 66_000usize;
+        let m = Memfs::new();
+        let _ = m.mkdir_p("/big");
+        for i in 0..n {
+            let _ = m.mkdir_p(format!("/big/d{:05}", i));
+        }
+        let _ = m.write_all("/big/zfile", b"x");
+        for (name, sorted) in [("all_dirs", true), ("entries().dirs()", false), ("entries().sort_by_name().dirs_first()", true)] {
+            rep.eval();
+            set_case(&format!("walk:memfs(wide-tree,{}):terminates→stalls", name), "66000 sibling directories");
+            let mref = &m;
+            let r = catch(|| -> Result<Vec<String>, String> {
+                match name {
+                    "all_dirs" => mref.all_dirs("/big").map(|v| v.iter().map(|p| p.to_string_lossy().to_string()).collect()).map_err(|e| e.to_string()),
+                    "entries().dirs()" => {
+                        let mut out = vec![];
+                        for e in mref.entries("/big").map_err(|e| e.to_string())?.min_depth(1).dirs().into_iter() {
+                            out.push(e.map_err(|e| e.to_string())?.path().to_string_lossy().to_string());
+                        }
+                        Ok(out)
+                    },
+                    _ => {
+                        let mut out = vec![];
+                        for e in mref.entries("/big").map_err(|e| e.to_string())?.min_depth(1).sort_by_name().dirs_first().into_iter() {
+                            let e = e.map_err(|e| e.to_string())?;
+                            if e.is_dir() {
+                                out.push(e.path().to_string_lossy().to_string());
+                            }
+                        }
+                        Ok(out)
+                    },
+                }
+            });
+            rep.key_str(&format!("memfs|wide-tree|{}", name));
+            rep.count("wide_tree_traversals", 1);
+            match r {
+                Err(msg) => rep.violation(&format!("walk:memfs(wide-tree,{}):returns→panic", name), J::s(msg)),
+                Ok(Err(e)) => rep.violation(&format!("walk:memfs(wide-tree,{}):Ok→Err", name), J::s(e)),
+                Ok(Ok(v)) => {
+                    let distinct: std::collections::BTreeSet<&String> = v.iter().collect();
+                    if v.len() != n || distinct.len() != n {
+                        rep.violation(&format!("walk:memfs(wide-tree,{}):every-directory-exactly-once→{}-items-{}-distinct", name, if v.len() < n { "fewer" } else { "more" }, distinct.len()), J::s(format!("{} items", v.len())));
+                    } else if sorted && v.windows(2).any(|w| w[0] >= w[1]) {
+                        rep.violation(&format!("walk:memfs(wide-tree,{}):name-order→unsorted", name), J::Null);
+                    }
+                },
+            }
+        }
     }
     // a 60-deep chain without the hook: more open directories than the internal descriptor cap of 50
     if ctx.shard == 0 {
